@@ -127,3 +127,7 @@ pub fn t_cloned(h: &H) -> u128 { h.slot.as_ref().cloned().unwrap_or(7) }
 fn apply2(f: impl Fn(u128) -> u128, x: u128) -> u128 { f(f(x)) }
 fn inc(x: u128) -> u128 { x + 1 }
 pub fn t_fn_item(x: u128, v: Vec<String>) -> (u128, Vec<String>) { (apply2(inc, x), v.iter().map(String::to_owned).collect()) }
+
+// Option values compared with ==: structural
+fn kind_of(x: Option<u128>) -> Option<u8> { match x { Some(v) if v > 9 => Some(2), Some(_) => Some(1), None => None } }
+pub fn t_option_eq(x: Option<u128>) -> bool { kind_of(x) == Some(2) }
